@@ -63,7 +63,40 @@ func FuncValues(v ssa.Value) (fns []*ssa.Function, complete bool) {
 		case *ssa.Extract:
 			if call, ok := x.Tuple.(*ssa.Call); ok {
 				walkResults(call, x.Index, depth, walk, &complete)
+			} else if lk, ok := x.Tuple.(*ssa.Lookup); ok && x.Index == 0 {
+				walk(lk, depth)
 			} else {
+				complete = false
+			}
+		case *ssa.Lookup:
+			// an entry of a table of functions: a map made in this function (every value put into it), or a
+			// read-only package-level map literal
+			switch m := x.X.(type) {
+			case *ssa.MakeMap:
+				n := 0
+				for _, r := range *m.Referrers() {
+					if mu, ok := r.(*ssa.MapUpdate); ok && mu.Map == ssa.Value(m) {
+						n++
+						walk(mu.Value, depth+1)
+					}
+				}
+				if n == 0 {
+					complete = false
+				}
+			case *ssa.UnOp:
+				if g, ok := m.X.(*ssa.Global); ok {
+					if strs, ints, ok := GlobalMapEntries(g); ok {
+						for _, v := range strs {
+							walk(v, depth+1)
+						}
+						for _, v := range ints {
+							walk(v, depth+1)
+						}
+						return
+					}
+				}
+				complete = false
+			default:
 				complete = false
 			}
 		case *ssa.Call:
